@@ -24,6 +24,37 @@ fn use_key(key: &toml_edit::Key) {
     let _ = key.span();
     let _ = key.get().len();
     let _ = format!("{:?}{:?}", key.leaf_decor(), key.dotted_decor());
+    // comparisons and conversions of key.rs / raw_string.rs that only a caller's code uses
+    let ks = key.get().to_owned();
+    assert!(*key == *ks.as_str() && *key == ks.as_str() && *key == ks && key.partial_cmp(key) == Some(std::cmp::Ordering::Equal),
+            "agree: Key compares by its name");
+    let decor = toml_edit::Decor::new(toml_edit::RawString::from(&ks), toml_edit::RawString::from(ks.clone().into_boxed_str()));
+    let _ = toml_edit::RawString::from(&toml_edit::InternalString::from(ks.as_str())).as_str().map(|t| t.len());
+    let rebuilt = toml_edit::Key::from(&ks).with_leaf_decor(decor.clone());
+    #[allow(deprecated)]
+    let _ = (rebuilt.to_string(), format!("{:?}", rebuilt.decor()), toml_edit::Key::new(&ks).with_decor(decor).to_string());
+    assert!(rebuilt == *key, "agree: Key::from(&String)");
+}
+
+/// the mutable view of a key (key.rs KeyMut), on a copy of the table
+fn use_key_mut(t: &toml_edit::Table) {
+    let mut c = t.clone();
+    for (mut k, _) in c.iter_mut() {
+        let name = k.get().to_owned();
+        let shown = k.to_string();
+        assert!(k == *name.as_str() && k == name.as_str() && k == name && &*k == name.as_str(), "agree: KeyMut compares by its name");
+        let _ = (k.as_repr().map(|r| format!("{r:?}")), k.default_repr(), k.display_repr().len());
+        let _ = format!("{:?}{:?}", k.leaf_decor(), k.dotted_decor());
+        #[allow(deprecated)]
+        let _ = format!("{:?}", k.decor());
+        k.fmt();
+        // without a stored spelling the key prints its default spelling, which reads back as the same name
+        let plain = k.display_repr().into_owned();
+        assert!(plain.parse::<toml_edit::Key>().map(|p| p.get() == name).unwrap_or(false), "agree: default spelling of key {shown} reads back: {plain}");
+        #[allow(deprecated)]
+        k.decor_mut().clear();
+    }
+    let _ = c.to_string();
 }
 
 macro_rules! use_formatted {
@@ -37,6 +68,12 @@ macro_rules! use_formatted {
         let _ = f.span();
         let _ = f.as_repr().map(|r| format!("{r:?}"));
         let _ = format!("{:?}", f.decor());
+        // Formatted::fmt drops the stored spelling: the default spelling must be a value of the same kind again
+        let mut g = f.clone();
+        g.fmt();
+        let kind = toml_edit::Value::from(g.value().clone()).type_name();
+        let txt = g.display_repr().into_owned();
+        assert!(txt.parse::<toml_edit::Value>().map(|v| v.type_name() == kind).unwrap_or(false), "agree: default spelling reads back as {kind}: {txt}");
     }};
 }
 
@@ -70,6 +107,7 @@ fn walk_nodes(it: &toml_edit::Item) {
             let _ = t.clone();
             let _ = (t.span(), t.position(), t.is_dotted(), t.is_implicit(), t.len(), t.is_empty());
             let _ = format!("{:?}", t.decor());
+            use_key_mut(t);
             for (k, x) in t.iter() {
                 if let Some((key, _)) = t.get_key_value(k) {
                     use_key(key);
@@ -174,6 +212,7 @@ fn walk_toml(x: &toml::Value) {
     let _ = x.type_str();
     let _ = x.clone().try_into::<toml::Value>().map(|y| y == *x);
     let _ = toml::Value::try_from(x).map(|y| y == *x);
+    toml_value_api(x);
     match x {
         toml::Value::Array(a) => {
             for y in a {
@@ -222,6 +261,305 @@ fn serde_extras(s: &str) {
         use serde::Deserialize;
         toml::Value::deserialize(d).map(|x| x.to_string())
     });
+}
+
+/// Entry points and conversions that measured source coverage (lib/coverage_run.py) showed no check ever called.
+/// Each is a second way to the same answer, so it is compared with the first way; a disagreement panics and
+/// is reported as `PANIC agree: ..` like any other C04 failure.
+fn more_entry_points(s: &str, d: &toml_edit::DocumentMut) {
+    use serde::de::IntoDeserializer;
+    use serde::Deserialize;
+    let show = |r: Result<toml::Value, toml_edit::de::Error>| match r {
+        Ok(x) => format!("ok {x:?}"),
+        Err(e) => format!("err {e}"),
+    };
+    // toml_edit/src/de/mod.rs: IntoDeserializer for DocumentMut / ImDocument<String> / Deserializer, Deserializer::new
+    let base = show(toml_edit::de::from_document::<toml::Value>(d.clone()));
+    let a = show(toml::Value::deserialize(d.clone().into_deserializer()));
+    #[allow(deprecated)]
+    let b = show(toml::Value::deserialize(toml_edit::de::Deserializer::new(d.clone())));
+    let c = show(toml::Value::deserialize(toml_edit::de::Deserializer::from(d.clone()).into_deserializer()));
+    assert!(a == base && b == base && c == base, "agree: DocumentMut deserializer entry points: {base} / {a} / {b} / {c}");
+    if let Ok(im) = toml_edit::ImDocument::parse(s.to_string()) {
+        let base = show(toml_edit::de::from_document::<toml::Value>(im.clone()));
+        let a = show(toml::Value::deserialize(im.clone().into_deserializer()));
+        assert!(a == base, "agree: ImDocument deserializer entry points: {base} / {a}");
+        // ImDocument's own read accessors (document.rs)
+        let _ = im.iter().count();
+        let _ = format!("{:?}", im.trailing());
+        assert!(im.raw() == s, "agree: ImDocument::raw is not the source");
+        let _ = (*im).len();
+    }
+    let _ = d.iter().count();
+    // error conversions (de/mod.rs, ser/mod.rs) keep the message
+    if let Err(e) = toml_edit::de::from_str::<std::collections::BTreeMap<String, i8>>(s) {
+        let m = e.to_string();
+        let te: toml_edit::TomlError = e.into();
+        assert!(te.to_string() == m, "agree: de::Error -> TomlError changes the rendering");
+        let se: toml_edit::ser::Error = te.into();
+        let back: toml_edit::TomlError = se.clone().into();
+        let _ = (se.to_string(), back.to_string(), format!("{se:?}"));
+    }
+    // toml_edit::ser::to_vec = to_string bytes
+    if let Ok(x) = toml_edit::de::from_document::<toml::Value>(d.clone()) {
+        let t = toml_edit::ser::to_string(&x).map_err(|e| e.to_string());
+        let v = toml_edit::ser::to_vec(&x).map(|v| String::from_utf8_lossy(&v).into_owned()).map_err(|e| e.to_string());
+        assert!(t == v, "agree: toml_edit::ser::to_vec and to_string");
+    }
+}
+
+/// `toml::Value`'s accessors, indexing and `From` conversions against its variant (toml/src/value.rs)
+fn toml_value_api(x: &toml::Value) {
+    use toml::Value as V;
+    let kinds = [x.is_integer(), x.is_float(), x.is_bool(), x.is_str(), x.is_datetime(), x.is_array(), x.is_table()];
+    let opts = [x.as_integer().is_some(), x.as_float().is_some(), x.as_bool().is_some(), x.as_str().is_some(),
+                x.as_datetime().is_some(), x.as_array().is_some(), x.as_table().is_some()];
+    assert!(kinds == opts && kinds.iter().filter(|k| **k).count() == 1, "agree: toml::Value is_* / as_* of a {}", x.type_str());
+    assert!(x.same_type(x) && x.same_type(&x.clone()), "agree: toml::Value::same_type");
+    let rebuilt = match x {
+        V::String(t) => V::from(t.as_str()),
+        V::Integer(i) => V::from(*i),
+        V::Float(f) => V::from(*f),
+        V::Boolean(b) => V::from(*b),
+        V::Datetime(d) => V::from(*d),
+        V::Array(a) => V::from(a.clone()),
+        V::Table(t) => V::from(t.iter().map(|(k, v)| (k.clone(), v.clone())).collect::<std::collections::BTreeMap<String, V>>()),
+    };
+    assert!(format!("{rebuilt:?}") == format!("{x:?}"), "agree: toml::Value::from rebuilds the value");
+    let mut y = x.clone();
+    match x {
+        V::Array(a) => {
+            for (i, e) in a.iter().enumerate() {
+                assert!(x.get(i).map(|g| format!("{g:?}")) == Some(format!("{e:?}")) && format!("{:?}", x[i]) == format!("{e:?}"),
+                        "agree: toml::Value index {i}");
+                let _ = y.get_mut(i).map(|m| m.type_str());
+                y[i] = V::Integer(i as i64);
+            }
+            assert!(x.get(a.len()).is_none() && x.get("a").is_none(), "agree: toml::Value::get out of range");
+        }
+        V::Table(t) => {
+            for (k, e) in t {
+                let ks: String = k.clone();
+                assert!(x.get(k.as_str()).is_some() && format!("{:?}", x[k.as_str()]) == format!("{e:?}") && format!("{:?}", x[&ks]) == format!("{e:?}"),
+                        "agree: toml::Value index by key");
+                let _ = y.get_mut(&ks).map(|m| m.type_str());
+                y[k.as_str()] = V::Boolean(true);
+            }
+            assert!(x.get(0).is_none(), "agree: toml::Value::get(0) on a table");
+            let h: std::collections::HashMap<String, V> = t.iter().map(|(k, v)| (k.clone(), v.clone())).collect();
+            assert!(V::from(h).as_table().map(|m| m.len()) == Some(t.len()), "agree: toml::Value::from(HashMap)");
+        }
+        _ => {
+            assert!(x.get(0).is_none() && x.get("a").is_none(), "agree: toml::Value::get on a scalar");
+        }
+    }
+    let _ = y.to_string();
+    // a scalar asked for as a date-time / an Option: the visitors' `expecting` texts and visit_some
+    let _ = x.clone().try_into::<toml_datetime::Datetime>().map_err(|e| e.to_string());
+    let _ = x.clone().try_into::<toml_datetime::Date>().map_err(|e| e.to_string());
+    let o = x.clone().try_into::<Option<V>>().map(|o| o.map(|v| format!("{v:?}")));
+    assert!(o.ok().flatten() == Some(format!("{x:?}")), "agree: Option<toml::Value> from a value");
+}
+
+/// a `Serialize` that goes through `serialize_bytes` (derive never does; serde_bytes and hand-written impls do)
+struct RawBytes<'a>(&'a [u8]);
+impl serde::Serialize for RawBytes<'_> {
+    fn serialize<S: serde::Serializer>(&self, s: S) -> Result<S::Ok, S::Error> {
+        s.serialize_bytes(self.0)
+    }
+}
+#[derive(serde::Serialize)]
+struct UnitMarker;
+#[derive(serde::Serialize)]
+struct HoldsBytes<'a> {
+    b: RawBytes<'a>,
+    u: Option<UnitMarker>,
+}
+#[derive(serde::Deserialize, PartialEq, Eq, PartialOrd, Ord, Debug)]
+#[allow(non_camel_case_types)]
+enum KeyShape {
+    a,
+    b(i64),
+    c(i64, i64),
+    d { x: i64 },
+    key,
+}
+
+/// a struct that carries toml_datetime's private struct and field names (the in-band tunnel, known class
+/// `private-datetime-key`) around a payload that is not date-time text: every payload kind must be refused by
+/// toml_edit/src/ser/map.rs DatetimeFieldSerializer with an error, never accepted and never a panic
+#[derive(serde::Serialize)]
+#[serde(rename = "$__toml_private_Datetime")]
+struct FakeDatetime<T> {
+    #[serde(rename = "$__toml_private_datetime")]
+    v: T,
+}
+#[derive(serde::Serialize)]
+struct HoldsFake<T> {
+    d: FakeDatetime<T>,
+}
+#[derive(serde::Serialize)]
+enum FakeKinds {
+    U,
+    N(i64),
+    T(i64, i64),
+    S { x: i64 },
+}
+#[derive(serde::Serialize)]
+struct FakeNewtype(i64);
+#[derive(serde::Serialize)]
+struct FakePair(i64, i64);
+#[derive(serde::Serialize)]
+struct FakeRec {
+    x: i64,
+}
+
+fn fake_datetime<T: serde::Serialize>(what: &str, v: T) {
+    let h = HoldsFake { d: FakeDatetime { v } };
+    let r = toml_edit::ser::to_string(&h).map_err(|e| (e.to_string(), format!("{e:?}")));
+    let t = toml::to_string(&h).map_err(|e| e.to_string());
+    assert!(r.is_err() && t.is_err(), "agree: the date-time tunnel accepted a {what}: {r:?} / {t:?}");
+}
+
+fn fake_datetimes_once() {
+    static ONCE: std::sync::Once = std::sync::Once::new();
+    ONCE.call_once(|| {
+        fake_datetime("bool", true);
+        fake_datetime("i8", 1i8);
+        fake_datetime("i16", 1i16);
+        fake_datetime("i32", 1i32);
+        fake_datetime("i64", 1i64);
+        fake_datetime("u8", 1u8);
+        fake_datetime("u16", 1u16);
+        fake_datetime("u32", 1u32);
+        fake_datetime("u64", 1u64);
+        fake_datetime("f32", 1f32);
+        fake_datetime("f64", 1f64);
+        fake_datetime("char", 'c');
+        fake_datetime("str that is no date-time", "x");
+        fake_datetime("bytes", RawBytes(b"1979-05-27"));
+        fake_datetime("none", None::<i64>);
+        fake_datetime("some", Some("1979-05-27"));
+        fake_datetime("unit", ());
+        fake_datetime("unit struct", UnitMarker);
+        fake_datetime("unit variant", FakeKinds::U);
+        fake_datetime("newtype struct", FakeNewtype(1));
+        fake_datetime("newtype variant", FakeKinds::N(1));
+        fake_datetime("seq", vec![1i64]);
+        fake_datetime("tuple", (1i64, 2i64));
+        fake_datetime("tuple struct", FakePair(1, 2));
+        fake_datetime("tuple variant", FakeKinds::T(1, 2));
+        fake_datetime("map", std::collections::BTreeMap::<String, i64>::new());
+        fake_datetime("struct", FakeRec { x: 1 });
+        fake_datetime("struct variant", FakeKinds::S { x: 1 });
+        // and the one payload that is date-time text goes through
+        let h = HoldsFake { d: FakeDatetime { v: "1979-05-27" } };
+        assert!(toml_edit::ser::to_string(&h).as_deref() == Ok("d = 1979-05-27\n"), "agree: the date-time tunnel with date-time text");
+    });
+}
+
+/// serializer / deserializer methods no derived type reaches
+fn serde_corners(b: &[u8], s: &str) {
+    use serde::Serialize;
+    use std::collections::BTreeMap;
+    fake_datetimes_once();
+    let head = &b[..b.len().min(24)];
+    let want = format!("[{}]", head.iter().map(|x| x.to_string()).collect::<Vec<_>>().join(", "));
+    // bytes = an array of integers, on every serializer (toml, toml_edit, Value::try_from); a table root refuses them
+    let h = HoldsBytes { b: RawBytes(head), u: None };
+    let t1 = toml::to_string(&h).map_err(|e| e.to_string());
+    let t2 = toml_edit::ser::to_string(&h).map_err(|e| e.to_string());
+    assert!(t1 == Ok(format!("b = {want}\n")) && t1 == t2, "agree: bytes in a struct: {t1:?} / {t2:?}");
+    let v = toml::Value::try_from(&h).map(|v| v["b"].to_string()).map_err(|e| e.to_string());
+    assert!(v == Ok(want.clone()), "agree: Value::try_from of bytes: {v:?}");
+    let mut out = String::new();
+    let r = RawBytes(head).serialize(toml::ser::ValueSerializer::new(&mut out)).map_err(|e| e.to_string());
+    assert!(r.is_ok() && out == want, "agree: toml::ser::ValueSerializer bytes: {r:?} {out}");
+    let r = RawBytes(head).serialize(toml_edit::ser::ValueSerializer::new()).map(|v| v.to_string()).map_err(|e| e.to_string());
+    assert!(r == Ok(want.clone()), "agree: toml_edit ValueSerializer bytes: {r:?}");
+    assert!(toml::to_string(&RawBytes(head)).is_err() && toml::Table::try_from(RawBytes(head)).is_err(), "agree: bytes at the root are refused");
+    let km: BTreeMap<RawBytes<'_>, i64> = BTreeMap::new();
+    let _ = km;
+    // a unit struct: refused everywhere, as a value and as the root
+    let mut out = String::new();
+    let e1 = UnitMarker.serialize(toml::ser::ValueSerializer::new(&mut out)).map_err(|e| (e.to_string(), format!("{e:?}")));
+    let e2 = toml::to_string(&UnitMarker).map_err(|e| e.to_string());
+    let e3 = toml::Value::try_from(UnitMarker).map_err(|e| e.to_string());
+    assert!(e1.is_err() && e2.is_err() && e3.is_err(), "agree: a unit struct is refused: {e1:?} {e2:?} {e3:?}");
+    // map keys that are enum variants with a payload (toml_edit/src/de/key.rs UnitOnly): refused, rendered, never a panic
+    for r in [toml::from_str::<BTreeMap<KeyShape, toml::Value>>(s).map(|m| m.len()),
+              toml::from_str::<BTreeMap<String, BTreeMap<KeyShape, toml::Value>>>(s).map(|m| m.len())] {
+        if let Err(e) = r {
+            let _ = (e.to_string(), format!("{e:?}"), e.span());
+        }
+    }
+    if let Err(e) = toml_edit::de::from_str::<BTreeMap<KeyShape, toml::Value>>(s) {
+        let _ = (e.to_string(), format!("{e:?}"), e.span());
+    }
+}
+
+/// serde_spanned's own API on what the deserializer handed out: the wrapper is transparent
+fn spanned_api(s: &str) {
+    use serde_spanned::Spanned;
+    use std::collections::BTreeMap;
+    use std::hash::{Hash, Hasher};
+    let (Ok(sp), Ok(plain)) = (toml::from_str::<BTreeMap<Spanned<String>, Spanned<toml::Value>>>(s), toml::from_str::<BTreeMap<String, toml::Value>>(s)) else {
+        return;
+    };
+    let a = toml::to_string(&sp).map_err(|e| e.to_string());
+    let b = toml::to_string(&plain).map_err(|e| e.to_string());
+    assert!(a == b, "agree: Spanned serializes as its value: {a:?} / {b:?}");
+    for ((k, v), (pk, pv)) in sp.iter().zip(plain.iter()) {
+        assert!(k.get_ref() == pk && k.as_ref() == pk && std::borrow::Borrow::<str>::borrow(k) == pk.as_str(), "agree: Spanned key accessors");
+        assert!(format!("{:?}", v.get_ref()) == format!("{pv:?}") && k.span().start <= k.span().end && v.span().end <= s.len(), "agree: Spanned value accessors");
+        let again = Spanned::new(0..0, k.get_ref().clone());
+        let hash = |x: &Spanned<String>| {
+            let mut h = std::collections::hash_map::DefaultHasher::new();
+            x.hash(&mut h);
+            h.finish()
+        };
+        assert!(again == *k && again.partial_cmp(k) == Some(std::cmp::Ordering::Equal) && hash(&again) == hash(k), "agree: Spanned compares by value");
+        let mut m = again.clone();
+        m.get_mut().push('x');
+        *m.as_mut() = pk.clone();
+        assert!(m.into_inner() == *pk, "agree: Spanned::into_inner");
+    }
+}
+
+/// toml_write's value writers (toml_write/src/value.rs) on what was parsed: arrays of integers, tables of integers, every width
+fn toml_write_values(x: &toml::Value) {
+    use toml_write::ToTomlValue;
+    let Some(t) = x.as_table() else { return };
+    use toml_write::WriteTomlValue;
+    // (`&str` is not a WriteTomlKey: the blanket impl for `&V` needs `V: Sized`; String and str are)
+    let ints: std::collections::BTreeMap<String, i64> = t.iter().filter_map(|(k, v)| v.as_integer().map(|i| (k.clone(), i))).collect();
+    if !ints.is_empty() {
+        let text = format!("v = {}", ints.to_toml_value());
+        let back = text.parse::<toml::Table>().map(|t| t["v"].as_table().map(|m| m.iter().map(|(k, v)| (k.clone(), v.as_integer())).collect::<Vec<_>>()));
+        let want: Vec<(String, Option<i64>)> = ints.iter().map(|(k, v)| (k.to_string(), Some(*v))).collect();
+        assert!(back == Ok(Some(want)), "agree: toml_write inline table of integers reparses: {text}");
+        let h: std::collections::HashMap<String, i64> = ints.iter().take(1).map(|(k, v)| (k.clone(), *v)).collect();
+        let one: std::collections::BTreeMap<String, i64> = h.iter().map(|(k, v)| (k.clone(), *v)).collect();
+        assert!(h.to_toml_value() == one.to_toml_value() && (&&one).to_toml_value() == one.to_toml_value(), "agree: toml_write HashMap / reference");
+    }
+    for v in t.values() {
+        let Some(a) = v.as_array() else { continue };
+        let Some(is) = a.iter().map(|e| e.as_integer()).collect::<Option<Vec<i64>>>() else { continue };
+        let mut direct = String::new();
+        let _ = is.as_slice().write_toml_value(&mut direct);
+        let texts = [is.to_toml_value(), direct, (&is).to_toml_value()];
+        let back = format!("v = {}", texts[0]).parse::<toml::Table>().map(|t| t["v"].as_array().map(|a| a.iter().map(|e| e.as_integer()).collect::<Vec<_>>()));
+        assert!(texts[0] == texts[1] && texts[1] == texts[2] && back == Ok(Some(is.iter().map(|i| Some(*i)).collect())), "agree: toml_write array of integers reparses: {}", texts[0]);
+        for i in is.iter().take(4) {
+            let i = *i;
+            let w = [(i as i8).to_toml_value() == (i as i8).to_string(), (i as u16).to_toml_value() == (i as u16).to_string(),
+                     (i as i16).to_toml_value() == (i as i16).to_string(), (i as u32).to_toml_value() == (i as u32).to_string(),
+                     (i as i32).to_toml_value() == (i as i32).to_string(), (i as u64).to_toml_value() == (i as u64).to_string(),
+                     (i as u128).to_toml_value() == (i as u128).to_string(), (i as i128).to_toml_value() == (i as i128).to_string(),
+                     [i, i].to_toml_value() == format!("[{i}, {i}]")];
+            assert!(w.iter().all(|x| *x), "agree: toml_write integer widths");
+        }
+    }
 }
 
 pub fn cmd_fuzz(args: &crate::Args) -> String {
@@ -277,6 +615,7 @@ fn fuzz_once(b: &Vec<u8>) -> (String, u64) {
             let _ = p.parse::<toml_edit::DocumentMut>().map(|d2| d2.to_string().len());
             // every node kind of the owned document: Display / Debug / Clone / accessors / ValueDeserializer
             walk_nodes(d.as_item());
+            more_entry_points(s, d);
             let _ = d.as_table().to_string();
             let _ = format!("{:?}{:?}", d.decor(), d.trailing());
             {
@@ -358,6 +697,9 @@ fn fuzz_once(b: &Vec<u8>) -> (String, u64) {
             let _ = x.to_string();
             walk_toml(x);
             serde_extras(s);
+            serde_corners(b, s);
+            spanned_api(s);
+            toml_write_values(x);
         }
         Err(e) => {
             let _ = e.to_string();
